@@ -24,7 +24,7 @@ use vh_common::{Args, Report, Rng, Tier, Value, json};
 
 use crate::c11::{insert_ops, reset_orderer_tables};
 use crate::graph::{Dag, DagParams, Op, Ops, build_ops, gen_dag};
-use crate::probe::{DriveNext, NextOutcome, PEv, Probe, released_by_store, render};
+use crate::probe::{DriveNext, NextOutcome, PEv, Probe, ready_queue_len, released_by_store, render};
 
 #[derive(Clone, Copy, Debug, PartialEq, Eq)]
 enum Flavour {
@@ -74,6 +74,11 @@ struct EnumRun {
     errors: Vec<String>,
     trace: Vec<String>,
     max_pendings_seen: u64,
+    /// A `next()` parked on the orderer's in-memory state (no store call in flight, not woken)
+    /// while the ready queue still held this many items: (call number, queue length).
+    parked_nonempty: Option<(usize, i64)>,
+    /// A generous wall-clock bound fired or the queue could not be read: no verdict.
+    undecided: Option<String>,
 }
 
 /// One run of Part A: deliver `first` items, call `next()` (cancelling call number `k` after `j`
@@ -84,9 +89,9 @@ async fn enum_run(store: &SqliteStore, ops: &Ops, order: &[usize], split: usize,
     settle(store).await;
     let probe = Probe::new(store.clone());
     let orderer: Orderer<Op, _, Probe> = Orderer::new(probe.clone());
-    let mut out = EnumRun { released: BTreeSet::new(), wiped: false, returned: vec![], cancel: None, target_completed_uncancelled: false, errors: vec![], trace: vec![], max_pendings_seen: 0 };
+    let mut out = EnumRun { released: BTreeSet::new(), wiped: false, returned: vec![], cancel: None, target_completed_uncancelled: false, errors: vec![], trace: vec![], max_pendings_seen: 0, parked_nonempty: None, undecided: None };
     let mut call_no = 0usize;
-    for (phase, part) in [&order[..split], &order[split..]].into_iter().enumerate() {
+    'run: for (phase, part) in [&order[..split], &order[split..]].into_iter().enumerate() {
         for &x in part {
             probe.mark(format!("process node {x}"));
             if let Err((_, e)) = orderer.process(ops.ops[x].clone()).await {
@@ -100,8 +105,14 @@ async fn enum_run(store: &SqliteStore, ops: &Ops, order: &[usize], split: usize,
             let cancel_after = if call_no == k { j } else { 0 };
             let from = probe.len();
             probe.mark(format!("next#{call_no}{}", if cancel_after > 0 { format!(" (cancel after {cancel_after} Pendings)") } else { String::new() }));
-            let r = DriveNext::new(orderer.next(), &probe, cancel_after).await;
             let this_call = call_no;
+            let r = match tokio::time::timeout(Duration::from_secs(30), DriveNext::new(orderer.next(), &probe, cancel_after)).await {
+                Ok(r) => r,
+                Err(_) => {
+                    out.undecided = Some(format!("next#{this_call} neither completed nor reached a decidable state within 30 s"));
+                    break 'run;
+                }
+            };
             call_no += 1;
             match r {
                 NextOutcome::Done(Ok(op), p) => {
@@ -143,6 +154,28 @@ async fn enum_run(store: &SqliteStore, ops: &Ops, order: &[usize], split: usize,
                     }
                     break;
                 }
+                NextOutcome::Parked(p) => {
+                    // Decided on state: this `next` waits on the orderer's own in-memory state,
+                    // nothing woke it and no store call is in flight. If the ready queue still
+                    // holds released items, no `next` will ever return them.
+                    probe.mark(format!("next#{this_call} parked after {p} Pendings with no store call in flight and no wake-up"));
+                    if this_call == k {
+                        out.target_completed_uncancelled = true;
+                    }
+                    settle(store).await;
+                    match ready_queue_len(store).await {
+                        Some(0) => break,
+                        Some(n) => {
+                            probe.mark(format!("ready queue still holds {n} item(s)"));
+                            out.parked_nonempty = Some((this_call, n));
+                            break 'run;
+                        }
+                        None => {
+                            out.undecided = Some(format!("next#{this_call} parked, but the ready queue could not be read"));
+                            break 'run;
+                        }
+                    }
+                }
                 NextOutcome::Cancelled(p) => {
                     let ev: Vec<PEv> = probe.log.borrow()[from..].to_vec();
                     let info = cancel_info(&ev, this_call, p);
@@ -170,9 +203,12 @@ fn released_nodes(events: &[PEv], ops: &Ops) -> BTreeSet<usize> {
 
 /// Wait for the detached rollback of a dropped `next` to release the permit.
 async fn settle(store: &SqliteStore) {
-    if let Ok(permit) = store.begin().await {
-        let _ = store.commit(permit).await;
-    }
+    let _ = tokio::time::timeout(Duration::from_secs(20), async {
+        if let Ok(permit) = store.begin().await {
+            let _ = store.commit(permit).await;
+        }
+    })
+    .await;
 }
 
 /// Did the database lose its schema (an in-memory database replaced by a fresh one)?
@@ -191,6 +227,8 @@ struct BufferRun {
     quiescent: bool,
     events: Vec<PEv>,
     next_futures_dropped: u64,
+    /// The buffer task is parked with no store call in flight while the ready queue holds items.
+    parked_nonempty: Option<i64>,
 }
 
 fn processed_count(events: &[PEv]) -> usize {
@@ -223,7 +261,7 @@ async fn buffer_run(store: &SqliteStore, ops: &Ops, order: &[usize], rng: &mut R
     let orderer: Orderer<Op, _, Probe> = Orderer::new(probe.clone());
     let (tx, rx) = tokio::sync::mpsc::unbounded_channel::<Op>();
     let mut stream = UnboundedReceiverStream::new(rx).layer(orderer);
-    let mut out = BufferRun { released: BTreeSet::new(), wiped: false, returned: vec![], errors: vec![], quiescent: false, events: vec![], next_futures_dropped: 0 };
+    let mut out = BufferRun { released: BTreeSet::new(), wiped: false, returned: vec![], errors: vec![], quiescent: false, events: vec![], next_futures_dropped: 0, parked_nonempty: None };
 
     // Arrival plan: bursts and pauses of a few scheduler turns / microseconds.
     let plan: Vec<(usize, u64)> = order.iter().map(|x| (*x, match rng.below(6) { 0 | 1 => 0, 2 => 1, 3 => 2, 4 => 40 + rng.below(200), _ => 300 + rng.below(1500) })).collect();
@@ -248,6 +286,8 @@ async fn buffer_run(store: &SqliteStore, ops: &Ops, order: &[usize], rng: &mut R
     });
 
     let started = Instant::now();
+    let mut stable_ticks = 0u32;
+    let mut last_len = usize::MAX;
     loop {
         tokio::select! {
             item = stream.next() => {
@@ -287,6 +327,46 @@ async fn buffer_run(store: &SqliteStore, ops: &Ops, order: &[usize], rng: &mut R
                     }
                     // Still parked after the drain?
                     if parked_on_empty(&probe.log.borrow()) {
+                        out.quiescent = true;
+                        break;
+                    }
+                }
+                // Second state criterion: every input was processed, nothing is in flight at the
+                // store boundary, the store's last answer was *not* "queue empty", and the call
+                // log has not moved for 200 ticks. Then the buffer task's `next` waits on the
+                // orderer's in-memory state; the ready queue decides.
+                let (len, in_flight, all_processed) = {
+                    let log = probe.log.borrow();
+                    let mut n = 0i64;
+                    for e in log.iter() {
+                        match e {
+                            PEv::Start(_) => n += 1,
+                            PEv::End(..) | PEv::Dropped(_) => n -= 1,
+                            PEv::Mark(_) => {}
+                        }
+                    }
+                    (log.len(), n, processed_count(&log) + out.errors.len() >= n_inputs)
+                };
+                if feeder.is_finished() && all_processed && in_flight == 0 && len == last_len && !parked_on_empty(&probe.log.borrow()) {
+                    stable_ticks += 1;
+                } else {
+                    stable_ticks = 0;
+                }
+                last_len = len;
+                if stable_ticks >= 200 {
+                    stable_ticks = 0;
+                    if let Some(n) = ready_queue_len(store).await {
+                        while let Some(item) = stream.next().now_or_never() {
+                            match item {
+                                Some(Ok(op)) => if let Some(x) = ops.index_of(&op.0.hash) { probe.mark(format!("yielded node {x}")); out.returned.push(x) },
+                                Some(Err((_, e))) => out.errors.push(format!("stream error: {e}")),
+                                None => break,
+                            }
+                        }
+                        if n > 0 {
+                            probe.mark(format!("buffer task parked, ready queue still holds {n} item(s)"));
+                            out.parked_nonempty = Some(n);
+                        }
                         out.quiescent = true;
                         break;
                     }
@@ -457,6 +537,18 @@ pub fn run(args: &Args) {
                             "cancellation": run.cancel.as_ref().map(|c| json!({"call": c.call_no, "after_pendings": c.pendings, "store_call_in_flight": c.dropped_in, "id_already_taken": c.taken})),
                             "store_calls": run.trace, "detail": detail})
                     };
+                    if let Some(why) = &run.undecided {
+                        rep.inconclusive(format!("part A case {i} j={j}: {why}"));
+                        break;
+                    }
+                    if let Some((call, n)) = run.parked_nonempty {
+                        rep.violation(
+                            "C12:released-item-never-returned:next-parked-with-nonempty-queue",
+                            format!("next#{call} is parked on the orderer's in-memory state (no store call in flight, nothing woke it) while the ready queue still holds {n} released item(s){}: no later next() can return them",
+                                run.cancel.as_ref().map(|c| format!("; an earlier next#{} had been dropped after {} Pendings inside `{}`", c.call_no, c.pendings, c.dropped_in)).unwrap_or_default()),
+                            witness(json!({"still_queued": n, "not_returned_nodes": lost})),
+                        );
+                    }
                     if run.wiped {
                         wipes += 1;
                         rep.violation(
@@ -467,7 +559,7 @@ pub fn run(args: &Args) {
                         );
                         store = build_store(*flavour, &dir).await;
                     }
-                    for x in lost.iter().filter(|_| !run.wiped) {
+                    for x in lost.iter().filter(|_| !run.wiped && run.parked_nonempty.is_none()) {
                         let hex = ops.ops[*x].0.hash.to_hex();
                         let (sig, what) = match &run.cancel {
                             Some(c) if c.taken.as_deref() == Some(hex.as_str()) => (
@@ -551,7 +643,13 @@ pub fn run(args: &Args) {
                         "database_wiped": run.wiped, "errors": run.errors, "store_calls": trace, "detail": detail})
                 };
                 let lost: Vec<usize> = run.released.difference(&got).copied().collect();
-                if run.wiped {
+                if let Some(n) = run.parked_nonempty {
+                    rep.violation(
+                        "C12:released-item-never-returned:next-parked-with-nonempty-queue",
+                        format!("the buffer task's next() is parked (all inputs processed, no store call in flight, call log still) while the ready queue holds {n} released item(s): the stream will never yield them"),
+                        witness(json!({"still_queued": n, "not_yielded_nodes": lost})),
+                    );
+                } else if run.wiped {
                     wipes += 1;
                     rep.violation(
                         "C12:lost:in-memory-database-wiped-by-cancelled-acquire",
